@@ -105,6 +105,66 @@ theorem forEnumFrom_pair {α β γ : Type} (b1 : Attr α → Nat → γ → Attr
   | nil => intro k a b; rfl
   | cons x xs ih => intro k a b; simp only [forEnumFrom]; exact ih _ _ _
 
+/-! ### block-local loops: element `i` only touches the entries `b*i .. b*i+b-1` (COO assemblies: `rows[2*e+k] = ..`) -/
+
+/-- an `enumerate` loop body that only rewrites entries of the block of its own index -/
+def IsBlockE {α β : Type} (b : Nat) (body : Attr α → Nat → β → Attr α) : Prop :=
+  ∀ a i x j, body a i x j = if j / b = i then body (fun _ => a j) i x j else a j
+
+theorem forEnumFrom_block_at {α β : Type} (b : Nat) (body : Attr α → Nat → β → Attr α) (h : IsBlockE b body) :
+    ∀ (l : List β) (k : Nat) (a : Attr α) (j : Nat),
+      forEnumFrom k l a body j =
+        if k ≤ j / b then (match l[j / b - k]? with | some x => body (fun _ => a j) (j / b) x j | none => a j) else a j := by
+  intro l
+  induction l with
+  | nil => intro k a j; simp [forEnumFrom]
+  | cons x xs ih =>
+    intro k a j
+    rw [forEnumFrom, ih]
+    by_cases hjk : j / b = k
+    · have h1 : ¬ k + 1 ≤ j / b := by omega
+      have h2 : k ≤ j / b := by omega
+      simp only [h1, h2, if_false, if_true]
+      rw [h a k x j]
+      simp [hjk]
+    · have hb : body a k x j = a j := by rw [h a k x j]; simp [hjk]
+      by_cases h1 : k + 1 ≤ j / b
+      · have h2 : k ≤ j / b := by omega
+        have h3 : j / b - k = (j / b - (k + 1)) + 1 := by omega
+        simp only [h1, h2, if_true]
+        rw [h3, List.getElem?_cons_succ, hb]
+      · have h2 : ¬ k ≤ j / b := by omega
+        simp [h1, h2, hb]
+
+/-- the value at `j` of a block-local `enumerate` loop: one run of the body of element `j / b` -/
+theorem forEnum_block_get {α β : Type} (b : Nat) (body : Attr α → Nat → β → Attr α) (h : IsBlockE b body) (a : Attr α) (l : List β)
+    (j : Nat) (hj : j / b < l.length) : forEnum l a body j = body (fun _ => a j) (j / b) l[j / b] j := by
+  rw [forEnum, forEnumFrom_block_at b body h]; simp [hj]
+
+/-- same for a `range` loop -/
+def IsBlock {α : Type} (b : Nat) (body : Attr α → Nat → Attr α) : Prop :=
+  ∀ a i j, body a i j = if j / b = i then body (fun _ => a j) i j else a j
+
+theorem forRange_block_at {α : Type} (b : Nat) (body : Attr α → Nat → Attr α) (h : IsBlock b body) (a : Attr α) :
+    ∀ (n j : Nat), forRange n a body j = if j / b < n then body (fun _ => a j) (j / b) j else a j := by
+  intro n
+  induction n with
+  | zero => intro j; simp [forRange_zero]
+  | succ n ih =>
+    intro j
+    rw [forRange_succ, h]
+    by_cases hj : j / b = n
+    · have : j / b < n + 1 := by omega
+      have h' : ¬ j / b < n := by omega
+      simp only [hj, if_true, ih, h', if_false, this]
+      simp [hj]
+    · simp only [hj, if_false, ih]
+      by_cases h1 : j / b < n
+      · have : j / b < n + 1 := by omega
+        simp [h1, this]
+      · have : ¬ j / b < n + 1 := by omega
+        simp [h1, this]
+
 /-! ### loops that write at a running counter (`a[c] = g(i); c += 1`) -/
 
 /-- `for i in range(n): a[c] = g(i); c += 1` fills the block `c .. c+n-1` -/
